@@ -11,7 +11,8 @@ data  = {"groups": [[id, name]], "students": [[id, name, note_or_null, group_id_
          "enrol": [[student_id, cname, sem]]}
 steps = [["get", var, "S"|"G"|"C", pk], ["select", var, "S"|"G"|"C", [pks] | null], ["ref", var, src_var, "group"],
          ["attr", src_var, attr], ["coll", src_var, coll, "list"|"len"|"count"|"is_empty"|"contains"|"bool", operand?],
-         ["each", list_var, attr | [coll, how]], ["add", s_var, c_pk], ["remove", s_var, c_pk], ["set_group", s_var, g_id_or_null],
+         ["each", list_var, attr | [coll, how]], ["add" | "remove" | "add_rev" | "remove_rev", s_var, c_pk]  (operands from the identity map: no SQL),
+         ["set_group", s_var, g_id_or_null],
          ["flush"]]
 """
 import json, sys
@@ -84,6 +85,13 @@ def run_program(db, regime, steps):
     def observe(fn):
         try: obs.append(['v', canon(fn())])
         except Exception as e: obs.append(['exc', type(e).__name__])
+    def cached(ent, pk):
+        """object by primary key, from the session's identity map when it is there (no SQL, hence no auto-flush)"""
+        key = pk if ent is not db.C else tuple(pk)
+        o = db._get_cache().indexes[ent._pk_attrs_].get(key)
+        if o is None:           # never seen in this session: ask the database (a query; whether it is needed may depend on the regime)
+            o = ent.get(**({'id': pk} if ent is not db.C else {'name': pk[0], 'sem': pk[1]}))
+        return o
     def coll(o, cname, how, operand):
         c = getattr(o, cname)
         if how == 'list': return set(c)
@@ -93,7 +101,7 @@ def run_program(db, regime, steps):
         if how == 'bool': return bool(c)
         if how == 'contains':
             ent = db.S if cname == 'students' else db.C
-            x = ent.get(**({'id': operand} if ent is db.S else {'name': operand[0], 'sem': operand[1]}))
+            x = cached(ent, operand)
             return x in c if x is not None else None
         raise ValueError(how)
     with orm.db_session:
@@ -136,10 +144,15 @@ def run_program(db, regime, steps):
                             else: out.append([canon(o), canon(coll(o, st[2][0], st[2][1], None))])
                         return out
                     observe(f)
-                elif op == 'add':
-                    observe(lambda: env[st[1]].courses.add(db.C[tuple(st[2])]) if env.get(st[1]) is not None else None)
-                elif op == 'remove':
-                    observe(lambda: env[st[1]].courses.remove(db.C[tuple(st[2])]) if env.get(st[1]) is not None else None)
+                elif op in ('add', 'remove', 'add_rev', 'remove_rev'):
+                    def f():
+                        s_obj = env.get(st[1]); c_obj = cached(db.C, st[2])
+                        if s_obj is None or c_obj is None or not isinstance(s_obj, db.S): return 'no such object'
+                        if op == 'add': s_obj.courses.add(c_obj)
+                        elif op == 'remove': s_obj.courses.remove(c_obj)
+                        elif op == 'add_rev': c_obj.students.add(s_obj)         # the same link, changed from the other side
+                        else: c_obj.students.remove(s_obj)
+                    observe(f)
                 elif op == 'set_group':
                     def f():
                         o = env.get(st[1])
